@@ -1333,8 +1333,10 @@ func (fc *fnCtx) execSimple(st *State, fr *frame, ins ssa.Instruction, k func(*S
 	case *ssa.RunDefers:
 		// deferred calls are executed by the frame's return/panic handlers
 	case *ssa.Defer:
-		fr.defers = append(fr.defers, ins)
-		st.env[deferKey{ins}] = Val{S: STuple, Tup: fc.callArgs(st, ins.Common())}
+		if fr.parent != nil {
+			fc.unsupported("defer inside an inlined function")
+		}
+		st.defers = append(st.defers, ins)
 	case *ssa.Go:
 		fc.goStmt(st, fr, ins)
 	case *ssa.Send:
@@ -1648,9 +1650,9 @@ func (fc *fnCtx) binop(st *State, fr *frame, ins *ssa.BinOp) {
 	case SC128:
 		switch ins.Op {
 		case token.EQL:
-			fc.define(st, ins, eq(x.T, y.T))
+			fc.define(st, ins, app("cplx_goeq", x.T, y.T))
 		case token.NEQ:
-			fc.define(st, ins, not(eq(x.T, y.T)))
+			fc.define(st, ins, not(app("cplx_goeq", x.T, y.T)))
 		default:
 			fc.unsupported("complex operator %s", ins.Op)
 		}
